@@ -48,9 +48,13 @@ P = {
                   "invariants), and over every interleaving of the sub-steps of any number of deliveries and fetches on one "
                   "mailbox; the model is run against the real agents through a real Core on exhaustive small "
                   "configurations and generated histories.",
-    "level_note": "partial for true concurrency: only the deliver/fetch race on a mailbox is modelled in sub-steps (forced order "
-                  "+ stress in the harness); the tie model<->Go is the differential check. Go runtime, gorilla mux/websocket, "
-                  "net/http are modelled not verified.",
+    "level_note": "Agents.v treats handlers as atomic except the deliver/fetch race on a REST mailbox (sub-steps; forced order "
+                  "+ stress in the harness). Model/MuxConc.v (part C07_conc) is a sub-step model of MuxAgent / clients / "
+                  "AgentManager at the granularity of lock and channel operations with unbounded proofs over reachability: no "
+                  "deadlock, no send on a closed channel, exactly-once in-order delivery to children registered throughout, "
+                  "complete Endpoints (not in it: ShutdownMessage / Close, the nested WebSocketAgent level). The tie model<->Go "
+                  "is the differential check and the operator-shape lemmas. Go runtime, gorilla mux/websocket, net/http are "
+                  "modelled not verified.",
     "timeout_quick": 600,
     "timeout_thorough": 7200,
 }
